@@ -44,7 +44,7 @@ LEVEL_NOTE = (
     "the correspondence (differential test, sampled) between model and code; SVD and the von Neumann trace inequality "
     "(nuclear norm is proved on singular values only); complex phase exp(i angle v) modelled as v/|v|; the cubic root of "
     "SquaredL2SquaredAbsLoss enters as the relation r>=0, r^3+pr+q=0 which is checked numerically on the code's root. "
-    "Recorded defect: L0Norm threshold (known)."
+    "Recorded defects: L0Norm threshold (known); float32 default weights in the phase-retrieval losses (known, precision only)."
 )
 PROP_MODULES = ["Scico.Props.C02"]
 EXTRA_TARGETS = ["Drv.Prox"]
@@ -73,6 +73,7 @@ ASSUMPTIONS = [
 ]
 
 KNOWN_L0 = "l0-threshold"
+KNOWN_W32 = "loss-default-weight-float32"
 
 
 def _key(case):
@@ -225,6 +226,8 @@ def correspond(ctx, model):
     for c in corpus_cases():
         case = dict(c["case"])
         case["stream"] = "corpus"
+        if c.get("skip_stream"):
+            continue  # replayed by findings() only
         if c.get("known_id"):
             # witness of a recorded defect: the model follows the (defective) code here; if the code has been
             # repaired upstream the implementation satisfies the property at the witness and differs from the model
@@ -267,6 +270,21 @@ def findings(ctx, model):
     r = model.call("l0", v=common.fs2b([1.2]), lam=common.f2b(1.0))
     if common.b2fs(r["out"]) != [float(p[0])]:
         ctx.disagree("prox.l0.witness", {"v": [1.2], "lam": 1.0}, p.tolist(), common.b2fs(r["out"]))
+    _w32_witness(ctx, model)
+
+
+def _w32_witness(ctx, model):
+    """loss-default-weight-float32: the prox of a float64 problem is computed with a float32 alpha when W is None"""
+    c = json.loads((common.CORPUS_DIR / PROP / "loss_default_w_float32.json").read_text())["case"]
+    with warnings.catch_warnings():
+        warnings.simplefilter("ignore")
+        p_impl = np.asarray(pc.Impl(c).prox_flat(pc.flat_value(c, "v")))
+        p_model, _ = pc.model_eval(model, dict(c))
+    err = float(np.max(np.abs(p_impl - p_model) / np.abs(p_model)))
+    # still the float32 artefact iff the error is far above float64 rounding but at float32 level
+    ctx.known_finding(KNOWN_W32, bool(1e-9 < err < 1e-6), f"max relative error {err:.2e}")
+    if err >= 1e-6:
+        ctx.disagree("prox.sql2abs.witness", c, pc._js(p_impl), pc._js(p_model), oracle=make_oracle(ctx.seed, p_model))
 
 
 def search(ctx, model, why):
